@@ -441,7 +441,8 @@ def obj_cases(deep, rng):
             s = bytes(s[:40])
             yield cfg, [s]
             yield cfg, [s[i:i + 1] for i in range(len(s))]
-            yield cfg, [s[:1], s[1:3], s[3:]]
+            if deep:
+                yield cfg, [s[:1], s[1:3], s[3:]]
         for s in granting_streams(cfg, range(256) if deep else (0, 1, 2, 100, 254, 255)):
             s = bytes(s + [9, 9])
             for j in range(1, len(s)):
